@@ -98,8 +98,20 @@ fn main() {
         let txt = std::fs::read_to_string(&path).expect("replay file");
         let v: serde_json::Value = serde_json::from_str(&txt).expect("replay json");
         let suite = v["suite"].as_str().unwrap_or("").to_string();
+        cvlib::engine::load_open_findings(&verif_dir, &id);
         match cvlib::props::replay(&id, &suite, &path) {
-            Ok(()) => { println!("replay passes: property={id} file={path}"); std::process::exit(0); }
+            Ok(()) => {
+                let known = cvlib::engine::known_finding_lines(&id);
+                for l in &known {
+                    println!("{l}");
+                }
+                if known.is_empty() {
+                    println!("replay passes: property={id} file={path}");
+                } else {
+                    println!("replay reproduces a listed known finding (not a new violation): property={id} file={path}");
+                }
+                std::process::exit(0);
+            }
             Err(m) => {
                 println!("VIOLATION property={id} replay={path}");
                 println!("  message={m}");
